@@ -88,6 +88,10 @@ type refBackend struct {
 	ID      string          // ns_svc_targetport, "_error404", ...
 	Ready   map[string]bool // ip:port of ready endpoints
 	Drained map[string]bool // ip:port of not-ready endpoints (only served as weight 0 with drain-support)
+	// service-upstream: the single server of the backend is the Service itself (cluster IP and service port)
+	upstreamAddr string
+	// Unjudged: the declarations leave the servers open (the users of the backend disagree on service-upstream)
+	Unjudged bool
 }
 
 func refResolve(w *world.World, ns, svcName, portRef string) *refBackend {
@@ -108,6 +112,9 @@ func refResolve(w *world.World, ns, svcName, portRef string) *refBackend {
 		return nil
 	}
 	b := &refBackend{ID: ns + "_" + svcName + "_" + svcTarget(sp), Ready: map[string]bool{}, Drained: map[string]bool{}}
+	if !svc.Headless {
+		b.upstreamAddr = fmt.Sprintf("%s:%d", world.ClusterIP(svc), sp.Port)
+	}
 	if ep := w.Get(world.KEndpoints, ns+"/"+svcName); ep != nil {
 		for _, ss := range ep.Subsets {
 			for _, pp := range ss.Ports {
@@ -159,6 +166,34 @@ func refBuild(w *world.World, p ctlsim.Params) *refTable {
 	if cm := w.Get(world.KConfigMap, world.GlobalCM); cm != nil && cm.Data["strict-host"] == "true" {
 		t.Strict = true
 	}
+	// service-upstream is read when the backend is created, by whoever needs it first: judged only where every user of
+	// the backend (ingresses, and --default-backend-service, which declares nothing) says the same
+	votes := map[string][2]int{}
+	vote := func(ing *world.Obj, b *refBackend) {
+		v := votes[b.ID]
+		if ing != nil && strings.ToLower(ing.Ann["service-upstream"]) == "true" {
+			v[0]++
+		} else {
+			v[1]++
+		}
+		votes[b.ID] = v
+	}
+	defer func() {
+		if t.Default != nil {
+			vote(nil, t.Default)
+		}
+		for _, rules := range t.Hosts {
+			for _, r := range rules {
+				switch v := votes[r.Back.ID]; {
+				case v[0] > 0 && v[1] > 0, v[0] > 0 && r.Back.upstreamAddr == "":
+					r.Back.Unjudged = true
+				case v[0] > 0:
+					r.Back.Ready = map[string]bool{r.Back.upstreamAddr: true}
+					r.Back.Drained = map[string]bool{}
+				}
+			}
+		}
+	}()
 	declared := func(host string, r C04Rule) bool {
 		for _, e := range t.Hosts[host] {
 			if e.C04Rule == r {
@@ -173,8 +208,14 @@ func refBuild(w *world.World, p ctlsim.Params) *refTable {
 		}
 		if ing.DefBack != nil {
 			r := C04Rule{Host: "", Path: "/", Type: "begin"}
+			if declared("", r) {
+				if b := refResolve(w, ing.NS, ing.DefBack.Svc, ing.DefBack.Port); b != nil {
+					vote(ing, b)
+				}
+			}
 			if !declared("", r) {
 				if b := refResolve(w, ing.NS, ing.DefBack.Svc, ing.DefBack.Port); b != nil {
+					vote(ing, b)
 					t.Hosts[""] = append(t.Hosts[""], refRule{r, b, ing.FullName()})
 				}
 			}
@@ -191,12 +232,18 @@ func refBuild(w *world.World, p ctlsim.Params) *refTable {
 				}
 				r := C04Rule{Host: host, Path: path, Type: pathTypeOf(ing, pth)}
 				if declared(host, r) {
-					continue // first-created ingress owns a duplicated path
+					// first-created ingress owns a duplicated path (the refused declaration may still be the one that
+					// creates its backend: it has a say on service-upstream)
+					if b := refResolve(w, ing.NS, pth.Svc, pth.Port); b != nil {
+						vote(ing, b)
+					}
+					continue
 				}
 				b := refResolve(w, ing.NS, pth.Svc, pth.Port)
 				if b == nil {
 					continue // a rule whose service or port does not exist configures nothing
 				}
+				vote(ing, b)
 				t.Hosts[host] = append(t.Hosts[host], refRule{r, b, ing.FullName()})
 			}
 		}
